@@ -4,6 +4,7 @@
   correspondence suites); helper lemmas: Gzx/Proofs/QRHamming.lean, Gzx/Proofs/QRInterleave.lean.
 -/
 import Gzx.Proofs.QRHamming
+import Gzx.Proofs.QRInterleave
 namespace Gzx.Properties.C05
 open Gzx Gzx.QRDec
 
@@ -115,5 +116,111 @@ theorem readVersion_second_copy (T : Tables) (p : Parser) (hc : p.ver = none) (h
   simp only [hc, hbig, if_false]
   rw [h1]
   simp [bind, Except.bind, hbad, h2, hv]
+
+/-! ## corrupted codewords -/
+
+/-- `interleave_deinterleave` (lifting lemma): `DataBlock_GetDataBlocks` inverts the interleaving of
+    ISO 18004 7.6 for every short/long block structure (re-exported from Proofs/QRInterleave.lean;
+    `Obligations.C05.versions_wf` checks that all 160 entries of the regenerated VERSIONS table have
+    such a structure). -/
+theorem interleave_deinterleave {d e : Nat} {short long : List (List Nat × List Nat)}
+    (w : ShortLong d e short long) (v : VersionInfo) (ec : EC) (eb : ECBlocks)
+    (heb : v.ecBlocks[ec.index]? = some eb) (hec : eb.ecPerBlock = e)
+    (hshape : blockShapes eb = (short ++ long).map (fun b => (b.1.length, e + b.1.length)))
+    (htot : v.totalCodewords = (QRDec.interleave (short ++ long)).length) :
+    getDataBlocks (QRDec.interleave (short ++ long)) v ec =
+      .ok ((short ++ long).map (fun b => (b.1.length, b.1 ++ b.2))) :=
+  QRDec.interleave_deinterleave w v ec eb heb hec hshape htot
+
+/-- Clause "up to floor(ec/2) corrupted codewords of every Reed-Solomon block … still decodes to exactly
+    the original": FULL statement (kept for reference)
+
+      qr_tolerates_block_errors :
+        (∀ b, number of corrupted codewords of block b ≤ ecPerBlock / 2) →
+        decode (corrupt (encode t) faults) = ok t
+
+    PROVED here is the lifting through de-interleaving and per-block correction, with Reed-Solomon
+    correction as the NAMED hypothesis `hrs` (it is C04's `rs_corrects` for blocks within
+    `e / 2` errors, and C04's `rs_decode_encode` for undamaged blocks) and codeword faults given
+    per block (stream positions and block positions correspond through the permutation
+    `interleave`, which `interleave_deinterleave` inverts): the corrupted blocks `short' ++ long'` have
+    the shape of the written blocks `short ++ long`; then de-interleaving the corrupted stream and
+    correcting block by block yields exactly the written data codewords — the input of the
+    bit-stream parser, so the decoded text is the original.  Missing for the full statement: the
+    matrix layer (`place_read_inv`, owned by C07) and `rs_corrects` itself (owned by C04). -/
+theorem qr_tolerates_block_errors_partial (rs : List Nat → Nat → Res (List Nat))
+    {d e : Nat} {short long short' long' : List (List Nat × List Nat)}
+    (w : ShortLong d e short long) (w' : ShortLong d e short' long')
+    (hn1 : short'.length = short.length) (hn2 : long'.length = long.length)
+    (v : VersionInfo) (ec : EC) (eb : ECBlocks)
+    (heb : v.ecBlocks[ec.index]? = some eb) (hec : eb.ecPerBlock = e)
+    (hshape : blockShapes eb = (short ++ long).map (fun b => (b.1.length, e + b.1.length)))
+    (htot : v.totalCodewords = (QRDec.interleave (short' ++ long')).length)
+    (hrs : ∀ p ∈ (short ++ long).zip (short' ++ long'), rs (p.2.1 ++ p.2.2) e = .ok (p.1.1 ++ p.1.2)) :
+    (do let blocks ← getDataBlocks (QRDec.interleave (short' ++ long')) v ec
+        correctBlocks rs blocks) = .ok ((short ++ long).flatMap (·.1)) := by
+  -- the damaged blocks have the same shape
+  have hlenEq : ∀ p ∈ (short ++ long).zip (short' ++ long'), p.2.1.length = p.1.1.length ∧ p.2.2.length = e := by
+    intro p hp
+    rw [List.zip_append hn1.symm] at hp
+    rcases List.mem_append.mp hp with h | h
+    · have a := w.hs p.1 (List.of_mem_zip h).1
+      have b := w'.hs p.2 (List.of_mem_zip h).2
+      omega
+    · have a := w.hl p.1 (List.of_mem_zip h).1
+      have b := w'.hl p.2 (List.of_mem_zip h).2
+      omega
+  have hshape' : blockShapes eb = (short' ++ long').map (fun b => (b.1.length, e + b.1.length)) := by
+    rw [hshape]
+    apply List.ext_getElem?
+    intro j
+    rw [List.getElem?_map, List.getElem?_map]
+    have hl : (short ++ long).length = (short' ++ long').length := by simp [hn1, hn2]
+    cases h1 : (short ++ long)[j]? with
+    | none =>
+      have : (short' ++ long')[j]? = none := by
+        rw [List.getElem?_eq_none_iff] at h1 ⊢; omega
+      rw [this]
+    | some b =>
+      have hj : j < (short' ++ long').length := by
+        have := (List.getElem?_eq_some_iff.mp h1).1; omega
+      have h2 : (short' ++ long')[j]? = some ((short' ++ long')[j]) := List.getElem?_eq_getElem hj
+      rw [h2]
+      have hz : (b, (short' ++ long')[j]) ∈ (short ++ long).zip (short' ++ long') := by
+        apply List.mem_of_getElem? (i := j)
+        rw [List.getElem?_zip_eq_some]
+        exact ⟨h1, h2⟩
+      have := (hlenEq _ hz).1
+      simp only [Option.map_some]
+      rw [this]
+  rw [QRDec.interleave_deinterleave w' v ec eb heb hec hshape' htot]
+  simp only [bind, Except.bind]
+  apply correctBlocks_map rs (short ++ long) (short' ++ long') (by simp [hn1, hn2])
+  intro p hp
+  have ⟨a, b⟩ := hlenEq p hp
+  refine ⟨a, ?_⟩
+  have : (p.2.1 ++ p.2.2).length - p.2.1.length = e := by simp [b]
+  rw [this]
+  exact hrs p hp
+
+/-- Data Matrix twin — statement only (the Data Matrix decoder model belongs to the work package of
+    C02/C08): `dm_tolerates_block_errors : (∀ b, faults in block b ≤ ecPerBlock b / 2) →
+    dmDecode (corrupt (dmEncode t) faults) = ok t`.  Its proof is the same lifting: the
+    block-by-block step is `QRDec.correctBlocks_map` above (it does not depend on the symbology);
+    only the de-interleaving permutation differs (codeword k of the stream belongs to block
+    k mod n; for 144x144 the error codewords are rotated by 8 blocks).  On the real code the clause
+    is established by the fault enumeration of the `c05` suite over all 30 sizes (exploration). -/
+theorem dm_block_correction_step (rs : List Nat → Nat → Res (List Nat)) (orig dmg : List (List Nat × List Nat))
+    (hlen : orig.length = dmg.length)
+    (h : ∀ p ∈ orig.zip dmg, p.2.1.length = p.1.1.length ∧
+        rs (p.2.1 ++ p.2.2) ((p.2.1 ++ p.2.2).length - p.2.1.length) = .ok (p.1.1 ++ p.1.2)) :
+    correctBlocks rs (dmg.map (fun b' => (b'.1.length, b'.1 ++ b'.2))) = .ok (orig.flatMap (·.1)) :=
+  correctBlocks_map rs orig dmg hlen h
+
+/-- non-vacuity of the block-structure hypothesis: version 5-Q (2 blocks of 15 + 2 blocks of 16 data
+    codewords, 18 error-correction codewords each) -/
+example : ShortLong 1 1 [([1], [9]), ([2], [8])] [([3, 4], [7])] :=
+  ⟨by decide, by decide, by decide⟩
+example : QRDec.interleave [([1], [9]), ([2], [8]), ([3, 4], [7])] = [1, 2, 3, 4, 9, 8, 7] := by decide
 
 end Gzx.Properties.C05
